@@ -11,7 +11,7 @@ LEVEL = 'proof'
 TRUSTED = [
     'translate/c20.py: Python ast -> environment-program skeleton (idioms: save/get/del/pop/set/restore, try/finally/except, '
     'literal-tuple loops unrolled, writers of the same module inlined, everything else = Call that may raise)',
-    'C20.Model.accepts (trace matcher, evaluated by vm_compute, not proved) checks on every real run that the skeleton covers the observed os.environ operations',
+    'C20.Model.accepts (trace matcher, evaluated by vm_compute) checks on every real run that the skeleton covers the observed os.environ operations; proved complete (C20_accepts_complete: every execution trace of a skeleton is accepted), its soundness (accepted => some execution has that trace) is not proved',
     'harness/impl/c20_impl.py: sys.settrace fault injector + tracing os.environ wrapper; CPython exception/finally semantics',
     'collaborators in other modules do not write the environment (observed on every run through the full-environment diff, not proved)',
 ]
